@@ -281,4 +281,24 @@ CHECKS = {
         note="Trusted: atomic rename within one directory, py_compile. "
              "Equality of rendering with/without cache follows from key "
              "coverage and is not computed."),
+    "C16": dict(
+        technique="must-pass-through by path enumeration (cook_check before "
+                  "compiled state), path rules on cook_check / cook / "
+                  "TemplateLoader.load, stale-state rule (retire unpublished "
+                  "entry points)",
+        text="Decides that render, include, macro lookup and macro names "
+             "call cook_check before touching compiled state on every path; "
+             "that cook_check compares the modification time first, "
+             "remembers it, and recompiles from a fresh read that "
+             "unconditionally refreshes content type and encoding, and does "
+             "nothing for an unchanged compiled template; that cook "
+             "publishes the new functions, removes _render* entries the new "
+             "program does not define, and only then flags the template as "
+             "compiled; that the loader takes the first existing candidate "
+             "along the search path (break), raises ValueError otherwise, "
+             "adds the default extension only to dot-less names, skips the "
+             "walk for absolute names, memoises by arguments, and that a "
+             "file template's own directory is first for load:.",
+        note="Operation histories longer than one reload are covered only "
+             "through the stale-state rule; file-system semantics trusted."),
 }
